@@ -521,6 +521,10 @@ pub fn run(e: &dyn Engine, o: &Opts) -> Report {
         }
     }
 
+    if let Ok(path) = std::env::var("VERIF_DUMP_CASES") {
+        let text: Vec<String> = all.iter().map(|(o, c)| format!("# {o}\n{}", c.lines.join("\n"))).collect();
+        let _ = std::fs::write(path, text.join("\n%%\n"));
+    }
     let mut report = Report {
         engine: e.name().to_string(),
         seed: o.seed,
